@@ -2,8 +2,10 @@ package h
 
 import (
 	"errors"
+	"strings"
 
 	z "github.com/Oudwins/zog"
+	"github.com/Oudwins/zog/parsers/zjson"
 	v "github.com/Oudwins/zog/zzverif"
 )
 
@@ -18,7 +20,8 @@ func init() {
 // reported nothing (an oracle that does not depend on the reference's issue computation).
 
 func C01_Jobs() []string {
-	return append(shapeJobs(), "hist/two-dest-types/parse", "hist/two-dest-types/validate", "hist/catch-then-ptr", "hist/shared-leaf")
+	return append(shapeJobs(), "hist/two-dest-types/parse", "hist/two-dest-types/validate", "hist/catch-then-ptr", "hist/shared-leaf",
+		"hist/preprocess", "hist/str-not")
 }
 func C02_Jobs() []string {
 	out := shapeJobs()
@@ -27,7 +30,8 @@ func C02_Jobs() []string {
 	for _, j := range []string{"parse/T2/int/d1", "parse/T2/slice/d0", "validate/T2/struct/d1", "parse/T4/nested/d1", "parse/T3/int/d1", "parse/T1/int/d1"} {
 		out = append(out, "afterpanic/"+j)
 	}
-	out = append(out, "extra/preprocess-slice", "extra/preprocess-struct/parse", "extra/preprocess-struct/validate", "extra/own-coercer", "extra/multi-issue-test/parse", "extra/multi-issue-test/validate")
+	out = append(out, "extra/preprocess-slice", "extra/preprocess-struct/parse", "extra/preprocess-struct/validate", "extra/own-coercer", "extra/multi-issue-test/parse", "extra/multi-issue-test/validate",
+		"extra/blank-strings", "extra/decode-failure")
 	return out
 }
 func C01_Covers() []string { return []string{"no-issues", "issues"} }
@@ -92,6 +96,77 @@ func c01History(kind, mode string) {
 		if e3 == nil {
 			v.Cover("no-issues")
 			v.Assert(1 >= k, "C01:constraint-not-enforced")
+		} else {
+			v.Cover("issues")
+		}
+	case "preprocess":
+		// constraints of a node wrapped in Preprocess are enforced on the function's output, whatever
+		// that output is (zero values included), at top level, as a struct field and as a slice element
+		g, k := v.Int("g"), v.Int("k")
+		x := v.Int("x")
+		v.Assume(x > -1000000 && x < 1000000 && k > -1000000 && k < 1000000)
+		mk := func() z.ZogSchema {
+			return z.Preprocess(func(n int, c z.Ctx) (int, error) { return n - k, nil }, z.Int().GT(g))
+		}
+		flag := z.Preprocess(func(n int, c z.Ctx) (bool, error) { return n > k, nil }, z.Bool().True())
+		var d struct {
+			A int
+			L []int
+			B bool
+		}
+		var errs z.ZogIssueMap
+		switch v.Choice("place", 3) {
+		case 0:
+			l := z.Preprocess(func(n int, c z.Ctx) (int, error) { return n - k, nil }, z.Int().GT(g)).Parse(x, &d.A)
+			if len(l) == 0 {
+				v.Cover("no-issues")
+				v.Assert(d.A == x-k && d.A > g, "C01:constraint-not-enforced")
+			} else {
+				v.Cover("issues")
+			}
+			return
+		case 1:
+			errs = z.Struct(z.Schema{"a": mk(), "b": flag}).Parse(map[string]any{"a": x, "b": x}, &d)
+			if errs == nil {
+				v.Assert(d.A == x-k && d.A > g && d.B && x > k, "C01:constraint-not-enforced")
+			}
+		default:
+			errs = z.Struct(z.Schema{"l": z.Slice(mk())}).Parse(map[string]any{"l": []any{x, k}}, &d)
+			if errs == nil {
+				v.Assert(len(d.L) == 2 && d.L[0] == x-k && d.L[0] > g && d.L[1] == 0 && 0 > g, "C01:constraint-not-enforced")
+			}
+		}
+		if errs == nil {
+			v.Cover("no-issues")
+		} else {
+			v.Cover("issues")
+		}
+	case "str-not":
+		// negated string constraints are constraints: Not().OneOf / Not().Contains / Not().HasPrefix / Not().Len
+		s := visible("s", 2) // printable, not blank (blank strings are absent values: C04)
+		a, b := visible("a", 1), visible("b", 2)
+		n := v.Int("n")
+		v.Assume(len(s) > 0 && len(a) > 0)
+		var d string
+		var errs z.ZogIssueList
+		var ok bool
+		switch v.Choice("test", 4) {
+		case 0:
+			errs = z.String().Not().OneOf([]string{a, b}).Parse(s, &d)
+			ok = s != a && s != b
+		case 1:
+			errs = z.String().Not().Contains(a).Parse(s, &d)
+			ok = !(s == a || (len(s) == 2 && (s[:1] == a || s[1:] == a)))
+		case 2:
+			errs = z.String().Not().HasPrefix(a).Parse(s, &d)
+			ok = s[:1] != a
+		default:
+			errs = z.String().Not().Len(n).Min(1).Parse(s, &d)
+			ok = len(s) != n
+		}
+		if len(errs) == 0 {
+			v.Cover("no-issues")
+			v.Assert(ok && d == s, "C01:constraint-not-enforced")
 		} else {
 			v.Cover("issues")
 		}
@@ -176,6 +251,47 @@ func c02Extra(kind, mode string) {
 		}
 		v.Assert(len(errs["a"]) == bad(x) && len(errs["p"]) == bad(y), "C02:issues-differ-from-violations")
 		v.Assert((errs == nil) == (bad(x)+bad(y) == 0), "C02:nil-iff-no-violation")
+	case "blank-strings":
+		// a string made of Unicode white space only is an absent value, any other string a present
+		// one: ALL byte strings of <=2 bytes (3 in thorough) at three kinds of node at once; the
+		// issue map is exactly the absent-value issues
+		s := v.String("s", wsMax())
+		n := 0
+		for n < len(s) {
+			n++
+		}
+		blank := refBlank(s, n)
+		var d struct {
+			A string
+			P *string
+			L []string
+		}
+		errs := z.Struct(z.Schema{"a": z.String().Required(), "p": z.Ptr(z.String()).NotNil(), "l": z.Slice(z.String()).Required()}).
+			Parse(map[string]any{"a": s, "p": s, "l": s}, &d)
+		if blank {
+			v.Assert(len(errs) == 4 && len(errs["a"]) == 1 && len(errs["p"]) == 1 && len(errs["l"]) == 1 && errs["a"][0].Code == "required" &&
+				errs["p"][0].Code == "not_nil" && errs["l"][0].Code == "required", "C02:issues-differ-from-violations")
+		} else {
+			v.Assert(errs == nil, "C02:nil-iff-no-violation")
+			v.Assert(d.A == s && d.P != nil && *d.P == s && len(d.L) == 1 && d.L[0] == s, "C02:issues-differ-from-violations")
+		}
+	case "decode-failure":
+		// an undecodable document is exactly one issue at the root, whatever the root node declares
+		doc := []string{`{`, `[1]`, `"s"`, `null`, ``, ` `, `{"a":}`}[v.Choice("doc", 7)]
+		type T struct{ A int }
+		var d T
+		var pd *T
+		var errs z.ZogIssueMap
+		switch v.Choice("root", 3) {
+		case 0:
+			errs = z.Struct(z.Schema{"a": z.Int().Required()}).Parse(zjson.Decode(strings.NewReader(doc)), &d)
+		case 1:
+			errs = z.Ptr(z.Struct(z.Schema{"a": z.Int().Required()})).NotNil().Parse(zjson.Decode(strings.NewReader(doc)), &pd)
+		default:
+			errs = z.Ptr(z.Struct(z.Schema{"a": z.Int().Required()})).Parse(zjson.Decode(strings.NewReader(doc)), &pd)
+		}
+		v.Assert(len(errs) == 2 && len(errs["$root"]) == 1 && errs["$root"][0].Code == "invalid_json" && len(errs["$first"]) == 1, "C02:issues-differ-from-violations")
+		v.Assert(pd == nil && d.A == 0, "C02:issues-differ-from-violations")
 	case "own-coercer":
 		// a schema's own coercer decides coercion for every input, also one that already has the
 		// destination's type
